@@ -709,6 +709,13 @@ impl Session {
                             v.iter().map(|x| x.to_string()).collect::<Vec<_>>().join(",")
                         }
                     };
+                    let zs = |v: &Vec<bool>| {
+                        if v.is_empty() {
+                            "-".to_string()
+                        } else {
+                            v.iter().map(|x| if *x { "1" } else { "0" }).collect::<Vec<_>>().join(",")
+                        }
+                    };
                     f.ok()
                         .kv("size", rep.size)
                         .kv("bnlen", bn.len())
@@ -717,8 +724,8 @@ impl Session {
                         .kv("es_pre", offs(&rep.pre[1]))
                         .kv("bn_post", rep.post[0])
                         .kv("es_post", rep.post[1])
-                        .kv("bn_zero", rep.zero_after[0] as u8)
-                        .kv("es_zero", rep.zero_after[1] as u8);
+                        .kv("bn_zero", zs(&rep.zero_after[0]))
+                        .kv("es_zero", zs(&rep.zero_after[1]));
                 } else {
                     drop(c);
                     f.ok();
